@@ -295,8 +295,9 @@ class Gen:
                          "ret": None if oneway or rng.random() < 0.4 else self.ftype(env),
                          "args": self.fields(env, 4, p_doc=0.05),
                          "throws": None, "anns": self.anns(0.1)}
-                    if not oneway and rng.random() < 0.35:
-                        pool = env["exceptions"] or env["types"]
+                    if not oneway and rng.random() < 0.35 and env["exceptions"]:
+                        # validation rejects a throws clause whose type is not an exception
+                        pool = env["exceptions"]
                         ths = []
                         for j in range(rng.randrange(0, 3)):
                             fn = self.ident()
